@@ -154,7 +154,8 @@ prop("C16", [_lazy("cli_flow", "rule_optflow1"), _lazy("cli_flow", "rule_optflow
 
 prop("C18", [_lazy("converters", "rule_tok1"), _lazy("converters", "rule_tok2"), _lazy("converters", "rule_tok3"),
              _lazy("converters", "rule_null1"), _lazy("state", "rule_glob1_converters"), _lazy("emit", "rule_sib1"),
-             _lazy("layout", "rule_imp4"), _lazy("converters", "rule_conv_pure"), _lazy("converters", "rule_iter1")],
+             _lazy("layout", "rule_imp4"), _lazy("converters", "rule_conv_pure"), _lazy("converters", "rule_iter1"),
+             _lazy("naming", "rule_label2")],
      "Static decision of: the path tokens and both separators emitted by the generator are the ones the post-init "
      "interpreter dispatches / splits on, and its type-argument index per container token matches the emitted "
      "annotation form (TOK-1); every IR class that rapid type analysis shows the inference pipeline can put in a "
@@ -179,7 +180,8 @@ prop("C10", [_lazy("emit", "rule_lim"), _lazy("emit", "rule_inj3"), _lazy("emit"
 
 prop("C11", [_lazy("emit", "rule_inj2"), _lazy("emit", "rule_inj5"), _lazy("emit", "rule_sib2"), _lazy("emit", "rule_label1"),
              _lazy("imports", "rule_shadow1"), _lazy("emit", "rule_dup1"), _lazy("state", "rule_cache2"),
-             _lazy("naming", "rule_optfwd1"), _lazy("naming", "rule_uniq1"), _lazy("naming", "rule_uniq2")],
+             _lazy("naming", "rule_optfwd1"), _lazy("naming", "rule_uniq1"), _lazy("naming", "rule_uniq2"),
+             _lazy("imports", "rule_shadow2"), _lazy("naming", "rule_label2")],
      "Static decision of: every use of the original key in the field_data family is a comparison, a label "
      "conversion, a container display (rendered by repr) or an exact escaper in code context (INJ-2); on every "
      "feasible path of each generator the original key is attached and rendered whenever the name differs (and "
@@ -190,12 +192,12 @@ prop("C11", [_lazy("emit", "rule_inj2"), _lazy("emit", "rule_inj5"), _lazy("emit
      "distinct keys -> distinct names (collision behaviour of unidecode / re.sub / inflection on concrete strings); "
      "de-duplication of class names happens before sanitising (two raw names can sanitise to one)")
 
-prop("C03", [_lazy("imports", "rule_imp1"), _lazy("imports", "rule_imp2"), _lazy("imports", "rule_shadow1"),
+prop("C03", [_lazy("imports", "rule_imp1"), _lazy("imports", "rule_imp2"), _lazy("imports", "rule_shadow1"), _lazy("imports", "rule_shadow2"),
              _lazy("emit", "rule_label1"), _lazy("emit", "rule_dup1"), _lazy("emit", "rule_fwd1"),
              _lazy("emit", "rule_inj2"), _lazy("emit", "rule_inj3"), _lazy("emit", "rule_inj5"), _lazy("emit", "rule_sib1_layout"),
              _lazy("layout", "rule_lay1"), _lazy("layout", "rule_lay2"), _lazy("layout", "rule_imp4"),
              _lazy("layout", "rule_nameord1"), _lazy("naming", "rule_nameord2"), _lazy("naming", "rule_uniq1"),
-             _lazy("naming", "rule_uniq2")],
+             _lazy("naming", "rule_uniq2"), _lazy("naming", "rule_label2")],
      "Static decision of: every import tuple a generator can emit (symbolic components expanded over the class "
      "tables) names an existing module and a name bound at its top level, read from the installed sources "
      "(IMP-1); every identifier in an emitted code fragment (templates, default/factory/converter strings, bases) "
@@ -234,7 +236,7 @@ prop("C12", [_lazy("layout", "rule_lay1"), _lazy("layout", "rule_lay2"), _lazy("
 prop("C01", [_lazy("infer", "rule_opt"), _lazy("infer", "rule_opt2"), _lazy("infer", "rule_opt3"), _lazy("infer", "rule_drop1"),
              _lazy("emit", "rule_dup1"), _lazy("emit", "rule_sib1"), _lazy("infer", "rule_eq1"), _lazy("infer", "rule_samples1"),
              _lazy("strtypes", "rule_res1"), _lazy("strtypes", "rule_cover1"), _lazy("infer", "rule_elem1"),
-             _lazy("naming", "rule_uniq1")],
+             _lazy("naming", "rule_uniq1"), _lazy("imports", "rule_shadow2"), _lazy("naming", "rule_label2")],
      "Static decision of the optionality / completeness clauses of C01: on every feasible path of the per-field merge "
      "loop (path enumeration with the equality axioms of EQ-1/NF-3) the value left in the merged set is optional "
      "whenever the stored or the incoming side was optional or the field is new in a later set, and the stored type "
